@@ -18,7 +18,8 @@ def scenarios(c):
              "cs": cs, "ss": ss, "frag": frag}
         if mutual:
             s["ccred"] = "cli_d%d" % depth
-            s["strust"] = "trust_root"
+            if mutual == 1:
+                s["strust"] = "trust_root"          # (mutual == 2: the client holds a certificate and key, the server does not ask for one)
         scns.append(s)
 
     # size classes around the record limit x read capacities; both directions
@@ -26,6 +27,9 @@ def scenarios(c):
     pairs_t = pairs_q + [(2, 1), (300, 1), (16385, 1000), (16386, 16385), (49152, 16384), (50000, 9999), (40000, 333), (1000, 3)]
     pairs = pairs_q if c.quick else pairs_t
     for proto in PROTOS:
+        # a client configured with a certificate and key facing a server that has no CA list and therefore sends no CertificateRequest
+        add(proto, 2, 2, "w10,r10:64,x", "r10:64,w10,r1:8")
+        add(proto, 2, 1, "w16385,r100:64,x", "r16385:16384,w100,r1:8", frag=c.seed + 5)
         for mutual in (0, 1):
             for depth in (1, 2, 3):
                 # a straight exchange with orderly close
@@ -68,7 +72,7 @@ def body():
     execs = []
     for r in res:
         s = r["scn"]
-        key = "tlsdrv:p%s:m%d:%s:cs=%s:ss=%s:frag=%s" % (s["proto"], 1 if "strust" in s else 0, s["scred"], s["cs"], s["ss"], s.get("frag", 0))
+        key = "tlsdrv:p%s:m%d:%s:cs=%s:ss=%s:frag=%s" % (s["proto"], 1 if "strust" in s else (2 if "ccred" in s else 0), s["scred"], s["cs"], s["ss"], s.get("frag", 0))
         c.count(1, key)
         if r["san"] or not r["complete"]:
             c.violation(key + ":crash", "driver died or sanitizer report during honest connection: %s" % (r["san"] or "incomplete trace (rc=%s)" % r["rc"]),
